@@ -5,6 +5,7 @@
 import SimVerif.Lemmas.TcpView
 
 namespace SimVerif
+namespace Hs
 
 /-- the route of a channel towards side 1, without its last hop (a forwarder) -/
 def route1 (cfg : NetCfg) (aep : Ep) (cv : ChanV) : List String :=
@@ -531,7 +532,7 @@ theorem HInv.attach {a : String} {aep : Ep} {s : HS} (h : HInv a aep s)
     (hextra : extra = if op.withEp then "ep=" ++ cv0.vis0.toString else "")
     (hfwd : ∀ q ∈ fw, q.ty = .err ∨ (q.ty = .synack ∧ q.chan = some c ∧ q.hops = cv0.hops0)) :
     HInv a aep { s with net := n', bag := s.bag ++ fw,
-                        accLog := s.accLog ++ [{ serial := s.accCalls - 1, op := some op, compl := ⟨op.h, .ok, extra⟩,
+                        accLog := s.accLog ++ [{ serial := s.accCalls - 1, op := some op, compl := { h := op.h, ec := .ok, extra := extra },
                                                  cid := some c, fwd := some s.net.fwds.length }] } := by
   obtain ⟨hpa, _, hcalls, hser⟩ := h.pend va ac op hva hac hop
   obtain ⟨hvb, hvf, hvt, hvr⟩ := h.a_open va hva hopen
@@ -1348,4 +1349,5 @@ theorem HInv.visRw {a : String} {aep : Ep} {s : HS} (h : HInv a aep s) (c : Nat)
     · exact h.nat_lt x hx
     · rw [List.mem_singleton] at hx; subst hx; exact cv_lt hc0
 
+end Hs
 end SimVerif
